@@ -417,6 +417,7 @@ func RunWorker(chk *Check, tier string, seed int64, shard, n int, dir string) in
 	go func() {
 		var seq int64 = -1
 		var startCPU int64
+		lastCPU, idleSince := cpuNanos(), time.Now()
 		for {
 			time.Sleep(250 * time.Millisecond)
 			s := c.caseSeq.Load()
@@ -426,7 +427,35 @@ func RunWorker(chk *Check, tier string, seed int64, shard, n int, dir string) in
 			}
 			if s != seq {
 				seq, startCPU = s, now
+				lastCPU, idleSince = now, time.Now()
 				continue
+			}
+			// Blocked-forever monitor: the process has used under two CPU-seconds in a window of two minutes inside one case, and every
+			// goroutine of the harness and the library is parked on a lock, a channel or a wait group, one of them inside
+			// the library: nothing is left that could wake them (the runtime's own deadlock detector cannot see this
+			// because this watchdog goroutine is alive). Starvation by other processes cannot produce this picture: a
+			// starved goroutine is runnable, not parked.
+			if time.Since(idleSince) > 2*time.Minute && now-lastCPU > int64(2*time.Second) {
+				lastCPU, idleSince = now, time.Now() // the case is computing: a new window
+			} else if time.Since(idleSince) > 2*time.Minute {
+				buf := make([]byte, 1<<20)
+				buf = buf[:runtime.Stack(buf, true)]
+				if fn, state := allParked(string(buf)); fn != "" {
+					desc := c.currentCase()
+					feats := map[string]string{"kind": "hang", "blocked": state, "func": fn}
+					if chk.CrashFeatures != nil {
+						if extra := chk.CrashFeatures(desc); len(extra) > 0 {
+							delete(feats, "func")
+							for k, v := range extra {
+								feats[k] = v
+							}
+						}
+					}
+					c.Violate(feats, map[string]any{"case": desc}, fmt.Sprintf("no CPU used for 2 minutes inside one case and every goroutine is parked (%s)\n%s", state, truncate(string(buf), 6000)))
+					c.flush(false)
+					os.Exit(4)
+				}
+				lastCPU, idleSince = now, time.Now() // something can still run (a sleep, a system call, a child): look again later
 			}
 			if float64(now-startCPU)/1e9 > bound {
 				buf := make([]byte, 1<<20)
@@ -452,6 +481,38 @@ func RunWorker(chk *Check, tier string, seed int64, shard, n int, dir string) in
 	chk.Run(c)
 	c.flush(true)
 	return 0
+}
+
+// allParked reads a dump of all goroutines. When every goroutine that runs harness or library code (the watchdog aside)
+// is parked in a state only another goroutine could end, and one of them is inside the library, it returns that library
+// frame and the state; otherwise "".
+func allParked(dump string) (fn, state string) {
+	parked := map[string]bool{"semacquire": true, "sync.Mutex.Lock": true, "sync.RWMutex.Lock": true, "sync.RWMutex.RLock": true,
+		"chan receive": true, "chan send": true, "select": true, "select (no cases)": true, "sync.Cond.Wait": true, "sync.WaitGroup.Wait": true,
+		"chan receive (nil chan)": true, "chan send (nil chan)": true}
+	for _, g := range strings.Split(dump, "\n\n") {
+		if strings.Contains(g, "core.RunWorker.func") || !(strings.Contains(g, "verif/") || strings.Contains(g, "getkin/kin-openapi")) {
+			continue
+		}
+		head := g
+		if i := strings.IndexByte(g, '\n'); i >= 0 {
+			head = g[:i]
+		}
+		st := ""
+		if i, j := strings.IndexByte(head, '['), strings.IndexByte(head, ']'); i >= 0 && j > i {
+			st = head[i+1 : j]
+			if k := strings.IndexByte(st, ','); k >= 0 {
+				st = st[:k]
+			}
+		}
+		if !parked[st] {
+			return "", ""
+		}
+		if f := innermostKin(g); f != "?" && fn == "" {
+			fn, state = f, st
+		}
+	}
+	return fn, state
 }
 
 // hangFunc finds the innermost kin-openapi frame of the first non-watchdog goroutine.
